@@ -6,14 +6,19 @@
    re-formats: gjson locates the raw value by the PATH STRING "<section>." ++ name and sjson splices the
    new string in place, so a write is "replace the value bytes of one member".
 
+   Since the fix the writer builds the path "<section>." ++ gjson.Escape(name): every byte of the name
+   that is not [A-Za-z0-9_:-], <= ' ' or > '~' is preceded by a backslash.
+
    Modelled fragment of gjson/sjson (everything else is outside: jcase_in_fragment = false and only
    the byte/round-trip oracle speaks):
    - the document is an object whose dependency sections are objects with string values; keys and
-     values are printable ASCII without '"' and '\' (no escapes);
-   - path components are split at every '.', a component containing '*' or '?' is a glob matched against
-     the keys in document order, any other component is compared for equality;
-   - names with '\' '|' '"' '[' '{', a leading ':' or '!', an '@' anywhere but in front of a "scope/"
-     prefix are outside (gjson pipes, modifiers, sub-selectors, sjson's forced keys). *)
+     values are printable ASCII without the double quote and the backslash (no escapes);
+   - a path is split at every unescaped '.', a backslash makes the next byte literal, a component
+     with an unescaped '*' or '?' is a glob matched against the keys in document order, any other
+     component is compared for equality (unescaped '|' pipes are not modelled: Escape never leaves one);
+   - RESIDUAL, not covered by gjson.Escape and not modelled: a name with a leading ':' (':' is "safe"
+     for Escape, but sjson reads a leading ':' of a component as "forced string key" and strips it,
+     so it sets/creates the key without the colon). name_supported excludes it. *)
 From Coq Require Import List ZArith NArith Bool.
 From Scalibr Require Import Writers.GoBytes.
 Import ListNotations.
@@ -68,19 +73,38 @@ Definition set_items (d : doc) (its : list item) : doc :=
 (* ------------------------------------------------------------------ gjson path strings *)
 Definition DOT : N := 46.
 
-(* split at every '.' (no escapes inside the fragment) *)
-Fixpoint split_dots (p : bytes) : list bytes :=
-  match p with
-  | [] => [[]]
-  | c :: r => if N.eqb c DOT then [] :: split_dots r
-              else match split_dots r with
-                   | [] => [[c]]
-                   | h :: t => (c :: h) :: t
-                   end
+Definition is_wild_char (c : N) : bool := N.eqb c 42 || N.eqb c 63.   (* '*' '?' *)
+
+(* one parsed path component: its text with the escapes removed, and whether an unescaped '*'/'?' occurred *)
+Record pcomp := { pc_part : bytes; pc_wild : bool }.
+
+Definition push_char (ch : N) (w : bool) (l : list pcomp) : list pcomp :=
+  match l with
+  | [] => [ {| pc_part := [ch]; pc_wild := w |} ]
+  | h :: t => {| pc_part := ch :: pc_part h; pc_wild := w || pc_wild h |} :: t
   end.
 
-Definition is_wild_char (c : N) : bool := N.eqb c 42 || N.eqb c 63.   (* '*' '?' *)
-Definition has_wild (comp : bytes) : bool := existsb is_wild_char comp.
+(* gjson parseObjectPath, applied repeatedly: split at unescaped '.', a backslash makes the next byte literal *)
+Fixpoint parse_path (p : bytes) : list pcomp :=
+  match p with
+  | [] => [ {| pc_part := []; pc_wild := false |} ]
+  | c :: r =>
+    if N.eqb c 92 then
+      match r with
+      | [] => [ {| pc_part := []; pc_wild := false |} ]
+      | e :: r' => push_char e false (parse_path r')
+      end
+    else if N.eqb c DOT then {| pc_part := []; pc_wild := false |} :: parse_path r
+    else push_char c (is_wild_char c) (parse_path r)
+  end.
+
+(* gjson.Escape *)
+Definition safe_char (c : N) : bool :=
+  ((97 <=? c) && (c <=? 122)) || ((65 <=? c) && (c <=? 90)) || ((48 <=? c) && (c <=? 57)) ||
+  (c <=? 32) || (126 <? c) || N.eqb c 95 || N.eqb c 45 || N.eqb c 58.
+
+Definition escape (s : bytes) : bytes :=
+  flat_map (fun c => if safe_char c then [c] else [92; c]) s.
 
 (* tidwall/match: '*' any sequence, '?' any one character *)
 Fixpoint glob (pat : bytes) : bytes -> bool :=
@@ -97,15 +121,15 @@ Fixpoint glob (pat : bytes) : bytes -> bool :=
   end.
 
 (* how one path component selects a key *)
-Definition comp_match (comp key : bytes) : bool :=
-  if has_wild comp then glob comp key else beq comp key.
+Definition comp_match (comp : pcomp) (key : bytes) : bool :=
+  if pc_wild comp then glob (pc_part comp) key else beq (pc_part comp) key.
 
-Definition find_member (comp : bytes) (ms : list member) : option member :=
+Definition find_member (comp : pcomp) (ms : list member) : option member :=
   find (fun m => comp_match comp (m_key m)) ms.
 
 (* gjson.Get(doc, path) for a two-component path: objects keyed c1 are entered in document order until
    one of them has a member selected by c2. A path with more components never selects a string member. *)
-Fixpoint lookup_items (c1 c2 : bytes) (its : list item) : option bytes :=
+Fixpoint lookup_items (c1 c2 : pcomp) (its : list item) : option bytes :=
   match its with
   | [] => None
   | t :: r =>
@@ -122,19 +146,19 @@ Fixpoint lookup_items (c1 c2 : bytes) (its : list item) : option bytes :=
   end.
 
 Definition path_lookup (d : doc) (path : bytes) : option bytes :=
-  match split_dots path with
+  match parse_path path with
   | [c1; c2] => lookup_items c1 c2 (d_items d)
   | _ => None
   end.
 
 (* sjson.Set(doc, path, string): the located raw value is replaced by the quoted new string *)
-Fixpoint set_first (comp new : bytes) (ms : list member) : list member :=
+Fixpoint set_first (comp : pcomp) (new : bytes) (ms : list member) : list member :=
   match ms with
   | [] => []
   | m :: r => if comp_match comp (m_key m) then set_val m new :: r else m :: set_first comp new r
   end.
 
-Fixpoint set_in_items (c1 c2 new : bytes) (its : list item) : list item :=
+Fixpoint set_in_items (c1 c2 : pcomp) (new : bytes) (its : list item) : list item :=
   match its with
   | [] => []
   | t :: r =>
@@ -151,7 +175,7 @@ Fixpoint set_in_items (c1 c2 new : bytes) (its : list item) : list item :=
   end.
 
 Definition path_set (d : doc) (path new : bytes) : doc :=
-  match split_dots path with
+  match parse_path path with
   | [c1; c2] => set_items d (set_in_items c1 c2 new (d_items d))
   | _ => d
   end.
@@ -173,7 +197,8 @@ Definition upd_orig (u : jupdate) : bytes :=
 Definition upd_new (u : jupdate) : bytes :=
   match u_known_as u with Some _ => alias_ver (u_name u) (u_to u) | None => u_to u end.
 
-Definition dep_path (sec name : bytes) : bytes := sec ++ DOT :: name.
+(* "<section>." + gjson.Escape(name) *)
+Definition dep_path (sec name : bytes) : bytes := sec ++ DOT :: escape name.
 
 (* one of the three "if res := gjson.GetBytes(manif, depStr); res.Exists() {...}" blocks.
    None = the mismatch error. *)
@@ -278,9 +303,9 @@ Definition erase_vals (d : doc) : doc := set_items d (map erase_item (d_items d)
 Definition wf_doc (d : doc) : bool :=
   forallb (fun sec => nodupb (map m_key (sec_members d sec))) SECS.
 
-Definition no_dot (s : bytes) : bool := negb (existsb (N.eqb DOT) s).
-(* gjson-path-safe: the key is one literal path component *)
-Definition safe_name (s : bytes) : bool := no_dot s && negb (has_wild s).
+(* the residual domain: what gjson.Escape does not cover (sjson's forced-key prefix ':') *)
+Definition name_supported (s : bytes) : bool :=
+  match s with c :: _ => negb (N.eqb c 58) | [] => true end.
 
 Definition distinct_keys (ups : list jupdate) : bool := nodupb (map upd_key ups).
 
@@ -311,24 +336,8 @@ Definition doc_frag (d : doc) : bool :=
   all_ws (d_lead d) && all_ws (d_trail d) && all_ws (d_empty_ws d) && forallb item_frag (d_items d) &&
   nodupb (map t_key (d_items d)).
 
-(* scope prefix: '@' only as first byte, and a '/' before any '.' or ':' *)
-Fixpoint slash_first (s : bytes) : bool :=
-  match s with
-  | [] => false
-  | c :: r => if N.eqb c 47 then true else if N.eqb c DOT || N.eqb c 58 then false else slash_first r
-  end.
-
-Definition name_char (c : N) : bool :=
-  (33 <=? c) && (c <=? 126) && negb (N.eqb c 34) && negb (N.eqb c 92) && negb (N.eqb c 124) &&
-  negb (N.eqb c 91) && negb (N.eqb c 123) && negb (N.eqb c 64).
-
 Definition name_frag (s : bytes) : bool :=
-  match s with
-  | [] => false
-  | c :: r =>
-    if N.eqb c 64 then forallb name_char r && slash_first r
-    else forallb name_char s && negb (N.eqb c 58) && negb (N.eqb c 33)
-  end.
+  match s with [] => false | _ => plain s && name_supported s end.
 
 Definition ver_frag (s : bytes) : bool := plain s.
 
@@ -348,8 +357,12 @@ Record jcase := {
 Definition jcase_in_fragment (c : jcase) : bool :=
   doc_frag (jc_doc c) && forallb upd_frag (jc_updates c).
 
-Definition jcase_safe_names (c : jcase) : bool :=
-  forallb (fun u => safe_name (upd_key u)) (jc_updates c).
+Definition jcase_supported_names (c : jcase) : bool :=
+  forallb (fun u => name_supported (upd_key u)) (jc_updates c).
+
+(* evidence counter: updates whose name needs escaping ('.', '*', '?', '@', '/', ...) *)
+Definition jcase_escaped_names (c : jcase) : bool :=
+  existsb (fun u => negb (beq (escape (upd_key u)) (upd_key u))) (jc_updates c).
 
 (* model = implementation, on the modelled fragment; the structured document must be the input *)
 Definition jcase_model_ok (c : jcase) : bool :=
@@ -373,6 +386,6 @@ Definition jcase_spec_full (c : jcase) : bool :=
   | _ => false
   end.
 
-(* ... claimed on the domain of pkgjson_write_exact_on_safe_names only (known finding: unescaped path) *)
+(* ... claimed wherever the model is the code: modelled fragment, names supported by Escape *)
 Definition jcase_spec_ok (c : jcase) : bool :=
-  negb (jcase_in_fragment c && jcase_safe_names c) || jcase_spec_full c.
+  negb (jcase_in_fragment c && jcase_supported_names c) || jcase_spec_full c.
